@@ -22,7 +22,7 @@ ASSUMPTIONS = ["dyadic cell bounds are exact in float64 (depth <= 6)",
                "VOGP_AD cannot run on a 1-D domain (known finding K2, reported under C06); d=1 run-level invariants are not observed"]
 N = {"quick": 32, "thorough": 900}
 REQUIRE = {"quick": {"direct_refines": 300, "max_depth_refusals": 100, "run_steps": 120, "run_refines": 40, "runs_terminated": 10,
-                     "pareto_declared_nodes": 5, "dims_1": 30, "dims_3": 30}}
+                     "pareto_declared_nodes": 5, "dims_1": 30, "dims_3": 30, "deep_ad_runs": 16, "gate_openings_seen_deep": 8}}
 TIMEOUT = {"quick": 1500, "thorough": 7200}
 
 
@@ -200,13 +200,23 @@ def direct_sequence(mon, rng):
         mon.sample({"d": d, "max_depth": max_depth, "n_points": len(ds.points), "cells_head": ds.cells[:5]})
 
 
-def vogp_ad_run(mon, rng, tier):
-    case, order = runs.make_ad_case(rng, eps=float(rng.choice([0.2, 0.3, 0.5, 0.8])) if tier == "thorough" else float(rng.choice([0.3, 0.5, 0.8])))
-    case["max_rounds"] = 120 if tier == "quick" else 250
+def vogp_ad_run(mon, rng, tier, deep=False):
+    if deep:
+        # a 1-D domain refined to depth 6-10 (cells down to 2^-10 wide) on the small exact numpy GP: depths the fitted
+        # gpytorch model cannot reach in a check's budget — seeded/Z02-vogpad-gate-by-cell-side-isclose
+        case, order = runs.make_ad_case(rng, d=1, depth_max=int(rng.integers(6, 11)), eps=float(rng.choice([0.2, 0.3, 0.5])),
+                                        contraction=float(rng.choice([8, 16, 32])))
+        case["model"] = "numpy-gp"
+        case["lengthscale"] = float(rng.choice([0.2, 0.3, 0.5]))
+        case["max_rounds"] = 200
+        mon.count("deep_ad_runs")
+    else:
+        case, order = runs.make_ad_case(rng, eps=float(rng.choice([0.2, 0.3, 0.5, 0.8])) if tier == "thorough" else float(rng.choice([0.3, 0.5, 0.8])))
+        case["max_rounds"] = 120 if tier == "quick" else 250
     d = case["in_dim"]
     tree = ShadowTree(d)
     state = {"latch": False, "discarded": set(), "declared": set()}
-    ctx = {k: case[k] for k in ("cone", "in_dim", "m", "eps", "contraction", "depth_max", "seed")}
+    ctx = {k: case[k] for k in ("cone", "in_dim", "m", "eps", "contraction", "depth_max", "seed", "model")}
 
     def per_step(tr, rec):
         if rec["crash"] is not None:
@@ -280,6 +290,8 @@ def vogp_ad_run(mon, rng, tier):
         latch = bool(alg.enable_epsilon_covering)
         if state["latch"] and not latch:
             mon.violation("adaptive:latch-reset", "the epsilon-covering gate closed again", sctx)
+        if latch and not state["latch"]:
+            mon.count("gate_openings_seen" + ("_deep" if deep else ""))
         if latch and not state["latch"] and not rec.get("all_S_at_max_depth", True):
             mon.violation("adaptive:gate-opened-early", "epsilon-covering enabled while a candidate was below the maximum depth", sctx)
         state["latch"] = latch
@@ -303,3 +315,5 @@ def shard(mon, tier, rng, shard_no, nshards):
             direct_sequence(mon, rng)
         vogp_ad_run(mon, rng, tier)
         vogp_ad_run(mon, rng, tier)
+        for _ in range(1 if tier == "quick" else 3):
+            vogp_ad_run(mon, rng, tier, deep=True)
